@@ -330,6 +330,7 @@ func main() {
 	kit.Domain = env.Domain
 	for _, b := range behs {
 		replay(b, res, env)
+		kit.CloseAll()
 	}
 	if len(behs) > 0 {
 		res.Samples = append(res.Samples, behs[len(behs)/2])
